@@ -1,15 +1,32 @@
+//! scratch: `bsv dbg <src.rs> <break line> <cmd>...` with cmd in next|step|finish|stepi|cont|b<line>; prints the place after each
 use crate::e2e;
-use bugstalker::debugger::variable::dqe::{Dqe, Selector};
 pub fn run(args: &[String]) -> i32 {
     let src = std::fs::read_to_string(&args[0]).unwrap();
+    let name = std::path::Path::new(&args[0]).file_name().unwrap().to_string_lossy().to_string();
     let bin = e2e::compile("/verif/.scratch/tmp", std::path::Path::new(&args[0]).file_stem().unwrap().to_str().unwrap(), &src, &[], None).unwrap();
     let mut s = e2e::launch(&bin, &[]).unwrap();
     let line: u64 = args[1].parse().unwrap();
-    s.dbg.set_breakpoint_at_line(&format!("{}", std::path::Path::new(&args[0]).file_name().unwrap().to_string_lossy()), line).unwrap();
+    s.dbg.set_breakpoint_at_line(&name, line).unwrap();
     s.dbg.start_debugee().unwrap();
-    for name in &args[2..] {
-        let r = s.dbg.read_variable(Dqe::Variable(Selector::by_name(name, true))).map(|v| v.iter().map(|r| format!("{:?}", r.value()).chars().take(160).collect::<String>()).collect::<Vec<_>>());
-        println!("{name} = {:?}", r.map_err(|e| e.to_string()));
+    let show = |s: &e2e::Session| {
+        let pid = s.pid_now();
+        let regs = nix::sys::ptrace::getregs(pid).ok();
+        let bt = s.dbg.backtrace(pid).ok();
+        println!("   pc {:x?} rsp {:x?} fn {:?}", regs.map(|r| r.rip), regs.map(|r| r.rsp), bt.and_then(|b| b.first().and_then(|f| f.func_name.clone())));
+    };
+    show(&s);
+    for c in &args[2..] {
+        let r = match c.as_str() {
+            "next" => s.dbg.step_over().map_err(|e| e.to_string()),
+            "step" => s.dbg.step_into().map_err(|e| e.to_string()),
+            "finish" => s.dbg.step_out().map_err(|e| e.to_string()),
+            "stepi" => s.dbg.stepi().map_err(|e| e.to_string()),
+            "cont" => s.dbg.continue_debugee().map_err(|e| e.to_string()),
+            b if b.starts_with('b') => s.dbg.set_breakpoint_at_line(&name, b[1..].parse().unwrap()).map(|_| ()).map_err(|e| e.to_string()),
+            _ => Err("?".into()),
+        };
+        println!("{c}: {r:?} events {:?}", s.events.take());
+        show(&s);
     }
     0
 }
